@@ -12,7 +12,7 @@ import (
 func init() {
 	register("C12", Meta{
 		Explanation: "Structural necessary conditions of cancel/expiry refunds: (authorised) the refund mint is cut off from the entry by 'sender.String() == entry.Sender' with sender derived from the function's sender parameter and the entry taken from an iteration of the unbatched pool only, selected by 'entry.Id == id'; the message path passes msg.Sender/msg.Id and GetSigners returns that Sender; (amount) the minted value is Token+Fee+ValCommission of that entry, converted (shared with C01.refund-amount); (recipient) coins go to the authorised sender only under RefundChainId == \"hub\", otherwise through TempAddress into a new pool entry on entry.RefundChainId addressed to entry.RefundAddress carrying the same coins; (once) the pool entry is deleted on every success path after the mint; (expiry) the sweep reaches the refund only under Unix(entry.CreatedAt).Add(OutgoingTxTimeout).Before(BlockTime) (or the mirrored After) and passes that entry's own Id and Sender.",
-		NotDecided: []string{"refund of module-generated entries with empty RefundChainId", "that the refund cannot fail after its mint in the unguarded sweep (error result dropped at the sweep; see DESIGN.md C12)", "arithmetic exactness of the decimals conversion (C11)"},
+		NotDecided:  []string{"refund of module-generated entries with empty RefundChainId", "that the refund cannot fail after its mint in the unguarded sweep (error result dropped at the sweep; see DESIGN.md C12)", "arithmetic exactness of the decimals conversion (C11)"},
 		Assumptions: commonAssumptions,
 	}, checkC12)
 }
